@@ -33,9 +33,9 @@ static const double p10[23] = {1e0, 1e1, 1e2, 1e3, 1e4, 1e5, 1e6, 1e7, 1e8, 1e9,
                                1e16, 1e17, 1e18, 1e19, 1e20, 1e21, 1e22};
 double ll_pow(double b, double e) {
   __CPROVER_assume(b == 10.0);
-  int k = (int)e;
-  __CPROVER_assume((double)k == e && k >= 0 && k <= 22);
-  return p10[k];
+  for (int k = 0; k < 23; k++) if (e == (double)k) return p10[k];
+  __CPROVER_assume(0);
+  return 0;
 }
 
 /* the system strtod is outside the model: reaching it means a harness assumption is wrong */
